@@ -67,9 +67,9 @@ Proofs/NoTrade.vos Proofs/NoTrade.vok Proofs/NoTrade.required_vos: Proofs/NoTrad
 Proofs/Lifecycle.vo Proofs/Lifecycle.glob Proofs/Lifecycle.v.beautified Proofs/Lifecycle.required_vo: Proofs/Lifecycle.v Model/Types.vo Model/Map.vo Model/Side.vo Model/Book.vo Model/Obs.vo Proofs/Basic.vo
 Proofs/Lifecycle.vio: Proofs/Lifecycle.v Model/Types.vio Model/Map.vio Model/Side.vio Model/Book.vio Model/Obs.vio Proofs/Basic.vio
 Proofs/Lifecycle.vos Proofs/Lifecycle.vok Proofs/Lifecycle.required_vos: Proofs/Lifecycle.v Model/Types.vos Model/Map.vos Model/Side.vos Model/Book.vos Model/Obs.vos Proofs/Basic.vos
-Properties/C04.vo Properties/C04.glob Properties/C04.v.beautified Properties/C04.required_vo: Properties/C04.v Model/Types.vo Model/Book.vo Proofs/Lifecycle.vo
-Properties/C04.vio: Properties/C04.v Model/Types.vio Model/Book.vio Proofs/Lifecycle.vio
-Properties/C04.vos Properties/C04.vok Properties/C04.required_vos: Properties/C04.v Model/Types.vos Model/Book.vos Proofs/Lifecycle.vos
+Properties/C04.vo Properties/C04.glob Properties/C04.v.beautified Properties/C04.required_vo: Properties/C04.v Model/Types.vo Model/Book.vo Spec/RefBook.vo Spec/Monitors.vo Proofs/Lifecycle.vo Proofs/Refine.vo Proofs/Volumes.vo Proofs/LifeRef.vo
+Properties/C04.vio: Properties/C04.v Model/Types.vio Model/Book.vio Spec/RefBook.vio Spec/Monitors.vio Proofs/Lifecycle.vio Proofs/Refine.vio Proofs/Volumes.vio Proofs/LifeRef.vio
+Properties/C04.vos Properties/C04.vok Properties/C04.required_vos: Properties/C04.v Model/Types.vos Model/Book.vos Spec/RefBook.vos Spec/Monitors.vos Proofs/Lifecycle.vos Proofs/Refine.vos Proofs/Volumes.vos Proofs/LifeRef.vos
 Properties/C12.vo Properties/C12.glob Properties/C12.v.beautified Properties/C12.required_vo: Properties/C12.v Model/Types.vo Model/Book.vo Proofs/Grid.vo
 Properties/C12.vio: Properties/C12.v Model/Types.vio Model/Book.vio Proofs/Grid.vio
 Properties/C12.vos Properties/C12.vok Properties/C12.required_vos: Properties/C12.v Model/Types.vos Model/Book.vos Proofs/Grid.vos
@@ -145,6 +145,9 @@ Proofs/PosVol.vos Proofs/PosVol.vok Proofs/PosVol.required_vos: Proofs/PosVol.v 
 Proofs/Uncrossed.vo Proofs/Uncrossed.glob Proofs/Uncrossed.v.beautified Proofs/Uncrossed.required_vo: Proofs/Uncrossed.v Model/Types.vo Model/Map.vo Model/Side.vo Model/Book.vo Model/Obs.vo Spec/RefBook.vo Proofs/Basic.vo Proofs/MapLemmas.vo Proofs/Refine.vo Proofs/Volumes.vo Proofs/Views.vo Proofs/Reload.vo Proofs/PosVol.vo
 Proofs/Uncrossed.vio: Proofs/Uncrossed.v Model/Types.vio Model/Map.vio Model/Side.vio Model/Book.vio Model/Obs.vio Spec/RefBook.vio Proofs/Basic.vio Proofs/MapLemmas.vio Proofs/Refine.vio Proofs/Volumes.vio Proofs/Views.vio Proofs/Reload.vio Proofs/PosVol.vio
 Proofs/Uncrossed.vos Proofs/Uncrossed.vok Proofs/Uncrossed.required_vos: Proofs/Uncrossed.v Model/Types.vos Model/Map.vos Model/Side.vos Model/Book.vos Model/Obs.vos Spec/RefBook.vos Proofs/Basic.vos Proofs/MapLemmas.vos Proofs/Refine.vos Proofs/Volumes.vos Proofs/Views.vos Proofs/Reload.vos Proofs/PosVol.vos
+Proofs/LifeRef.vo Proofs/LifeRef.glob Proofs/LifeRef.v.beautified Proofs/LifeRef.required_vo: Proofs/LifeRef.v Model/Types.vo Model/Map.vo Model/Side.vo Model/Book.vo Model/Obs.vo Spec/RefBook.vo Spec/Monitors.vo Proofs/Basic.vo Proofs/MapLemmas.vo Proofs/Refine.vo Proofs/Volumes.vo Proofs/Reload.vo Proofs/PosVol.vo
+Proofs/LifeRef.vio: Proofs/LifeRef.v Model/Types.vio Model/Map.vio Model/Side.vio Model/Book.vio Model/Obs.vio Spec/RefBook.vio Spec/Monitors.vio Proofs/Basic.vio Proofs/MapLemmas.vio Proofs/Refine.vio Proofs/Volumes.vio Proofs/Reload.vio Proofs/PosVol.vio
+Proofs/LifeRef.vos Proofs/LifeRef.vok Proofs/LifeRef.required_vos: Proofs/LifeRef.v Model/Types.vos Model/Map.vos Model/Side.vos Model/Book.vos Model/Obs.vos Spec/RefBook.vos Spec/Monitors.vos Proofs/Basic.vos Proofs/MapLemmas.vos Proofs/Refine.vos Proofs/Volumes.vos Proofs/Reload.vos Proofs/PosVol.vos
 Properties/C01.vo Properties/C01.glob Properties/C01.v.beautified Properties/C01.required_vo: Properties/C01.v Model/Types.vo Model/Map.vo Model/Side.vo Model/Book.vo Model/Obs.vo Spec/RefBook.vo Proofs/Ledger.vo Proofs/Refine.vo Proofs/RefProps.vo Proofs/Volumes.vo Proofs/Reload.vo
 Properties/C01.vio: Properties/C01.v Model/Types.vio Model/Map.vio Model/Side.vio Model/Book.vio Model/Obs.vio Spec/RefBook.vio Proofs/Ledger.vio Proofs/Refine.vio Proofs/RefProps.vio Proofs/Volumes.vio Proofs/Reload.vio
 Properties/C01.vos Properties/C01.vok Properties/C01.required_vos: Properties/C01.v Model/Types.vos Model/Map.vos Model/Side.vos Model/Book.vos Model/Obs.vos Spec/RefBook.vos Proofs/Ledger.vos Proofs/Refine.vos Proofs/RefProps.vos Proofs/Volumes.vos Proofs/Reload.vos
